@@ -580,6 +580,9 @@ class Obl:
               and not any(re.search(p_, r.get('property', '')) for p_ in s.get('expected_fail', []))]
         undecided_props = [r for r in others if r['status'] not in ('SUCCESS', 'FAILURE')]
         if uw and undecided_props:
+            hang = self.hang_check(cb, b, uw[0], timeout)
+            if hang:
+                return hang
             return self.undecided('unwinding bound too small: %s (cbmc leaves %d dependent properties UNKNOWN)' % (', '.join(r['property'] for r in uw[:4]), len(undecided_props)))
         if undecided_props:
             return self.undecided('solver left %d properties undecided (status %s), e.g. %s' % (len(undecided_props), undecided_props[0]['status'], undecided_props[0].get('property')))
@@ -595,6 +598,9 @@ class Obl:
                               for r in bad]
         unwinding = [r for r in bad if 'unwind' in r.get('property', '') or 'unwinding assertion' in r.get('description', '')]
         if unwinding and len(unwinding) == len(bad):
+            hang = self.hang_check(cb, b, unwinding[0], timeout)
+            if hang:
+                return hang
             return self.undecided('unwinding assertion failed (bound %s too small): %s' % (s.get('unwind'), unwinding[0].get('property')))
         # --- counterexample ---------------------------------------------------
         first = bad[0]
@@ -610,6 +616,36 @@ class Obl:
         self.res['counterexample_raw'] = inputs
         self.res['counterexample'] = pretty_inputs(inputs)
         return self.res
+
+    def hang_check(self, cb, b, r, timeout):
+        """A failed unwinding assertion is either a bound that is too small (undecided) or a loop that does not end.
+        Take the input of the trace that exceeds the bound and run the real code on it natively: only if that run
+        does not terminate is it reported as a violation (C04/C07 termination), with the input as the replay."""
+        s = self.s
+        if s.get('kind') not in ('bounded', 'width') or not s.get('harness'):
+            return None
+        # unwinding assertions are generated during symbolic execution, so --property cannot name them: ask for all traces
+        cb2 = [c for c in cb if c != '--json-ui'][:-1] + ['--json-ui', '--trace', b]
+        rc2, out2, err2, dt2 = run_cmd(cb2, min(timeout, 900), s.get('mem_gb', 12))
+        open(os.path.join(self.dir, 'cbmc.unwind-trace.json'), 'w').write(out2)
+        r2, _, _ = parse_cbmc_json(out2)
+        inputs = {}
+        for x in (r2 or []):
+            if 'trace' in x and x.get('property') == r.get('property'):
+                inputs = extract_inputs(x['trace'], s['entry'], os.path.basename(s['harness']))
+        if not inputs:
+            return None
+        ok, text = self.native_replay(inputs, os.path.join(self.dir, 'native'), hang_timeout=20)
+        if ok is True and 'does not terminate' in text:
+            self.res['status'] = 'FAIL'
+            self.res['failed'] = [{'property': r.get('property'), 'description': 'loop does not terminate: ' + r.get('description', ''),
+                                   'location': '%s:%s' % (r.get('sourceLocation', {}).get('file', '?'), r.get('sourceLocation', {}).get('line', '?'))}]
+            self.res['counterexample_from'] = 'trace of the failed unwinding assertion; the real code does not terminate on it'
+            self.res['counterexample_raw'] = inputs
+            self.res['counterexample'] = pretty_inputs(inputs)
+            self.res['native_done'] = (True, text)
+            return self.res
+        return None
 
     def trace_inputs(self, cb, binary, prop, timeout, outname):
         s = self.s
@@ -655,7 +691,7 @@ class Obl:
         return self.trace_inputs(cbx, c, bad[0]['property'], timeout, 'cbmc.cex.json')
 
     # --- native replay ------------------------------------------------------
-    def native_replay(self, inputs, workdir):
+    def native_replay(self, inputs, workdir, hang_timeout=60):
         s = self.s
         if 'native_done' in self.res:
             return self.res['native_done']
@@ -684,11 +720,11 @@ class Obl:
             return None, 'native harness does not build: ' + (err.strip().splitlines() or ['?'])[-1][:300]
         env = dict(os.environ, VF_REPLAY_INPUTS=hdr, ASAN_OPTIONS='detect_leaks=1:abort_on_error=0', UBSAN_OPTIONS='print_stacktrace=1')
         try:
-            p = subprocess.run([exe], stdout=subprocess.PIPE, stderr=subprocess.STDOUT, timeout=60, env=env)
+            p = subprocess.run([exe], stdout=subprocess.PIPE, stderr=subprocess.STDOUT, timeout=hang_timeout, env=env)
             text = p.stdout.decode('utf-8', 'replace')
             rc = p.returncode
         except subprocess.TimeoutExpired:
-            return True, 'native run does not terminate within 60 s (input reproduces a hang)'
+            return True, 'native run does not terminate within %d s (input reproduces a hang)' % hang_timeout
         if rc == 77:
             return None, 'native run: input outside the harness assumptions: ' + text.strip()[-300:]
         if rc != 0:
